@@ -391,3 +391,198 @@ Proof.
       * eapply alloc_rows_inv in H; eauto; try lia.
         destruct (ltemp <? numrows); lia.
 Qed.
+
+Lemma request_virt_sarray_inv : forall c m h pid w r a m' h' e,
+  cfg_wf c -> inv c m h -> request_virt_sarray wid c m h pid w r a = (m', h', e) ->
+  inv c m' h' /\ e <> Some OutOfFuel.
+Proof.
+  intros c m h pid w r a m' h' e Hc Hi H. unfold request_virt_sarray in H.
+  destruct (negb (pid =? 1)). { inversion H; subst. split; auto; congruence. }
+  destruct (alloc_small wid c m h pid (c_sctl c)) as [[m1 h1] [e1|]] eqn:ES;
+    eapply alloc_small_inv in ES; eauto; destruct ES as (Hi1 & He1); inversion H; subst; split; auto; congruence.
+Qed.
+
+Lemma request_virt_barray_inv : forall c m h pid w r a m' h' e,
+  cfg_wf c -> inv c m h -> request_virt_barray wid c m h pid w r a = (m', h', e) ->
+  inv c m' h' /\ e <> Some OutOfFuel.
+Proof.
+  intros c m h pid w r a m' h' e Hc Hi H. unfold request_virt_barray in H.
+  destruct (negb (pid =? 1)). { inversion H; subst. split; auto; congruence. }
+  destruct (alloc_small wid c m h pid (c_bctl c)) as [[m1 h1] [e1|]] eqn:ES;
+    eapply alloc_small_inv in ES; eauto; destruct ES as (Hi1 & He1); inversion H; subst; split; auto; congruence.
+Qed.
+
+Definition alloc_pres (c : cfg) (alloc : mgr -> heap -> Z -> Z -> res) : Prop :=
+  forall m h w r m' h' e, inv c m h -> alloc m h w r = (m', h', e) -> inv c m' h' /\ e <> Some OutOfFuel.
+
+Lemma realize_list_inv : forall c alloc, alloc_pres c alloc ->
+  forall l m h maxmh l' m' h' e,
+  inv c m h -> realize_list alloc l m h maxmh = (l', (m', h', e)) -> inv c m' h' /\ e <> Some OutOfFuel.
+Proof.
+  intros c alloc Ha. induction l as [|v l IH]; intros m h maxmh l' m' h' e Hi H; cbn [realize_list] in H.
+  - inversion H; subst. split; auto; congruence.
+  - destruct (v_real v).
+    + destruct (realize_list alloc l m h maxmh) as [r' [[m2 h2] e2]] eqn:ER. inversion H; subst. eapply IH; eauto.
+    + destruct (v_maxacc v =? 0). { inversion H; subst. split; auto; congruence. }
+      destruct (Z.quot (v_rows v - 1) (v_maxacc v) + 1 <=? maxmh).
+      * destruct (alloc m h (v_width v mod two32) (v_rows v mod two32)) as [[m1 h1] [e1|]] eqn:EA; apply Ha in EA; auto; destruct EA as (Hi1 & He1).
+        -- inversion H; subst. split; auto.
+        -- destruct (realize_list alloc l m1 h1 maxmh) as [r' [[m2 h2] e2]] eqn:ER. inversion H; subst. eapply IH; eauto.
+      * inversion H; subst. split; auto; congruence.
+Qed.
+
+Lemma realize_virt_arrays_inv : forall c m h prec m' h' e,
+  cfg_wf c -> inv c m h -> realize_virt_arrays wid c m h prec = (m', h', e) ->
+  inv c m' h' /\ e <> Some OutOfFuel.
+Proof.
+  intros c m h prec m' h' e Hc Hi H. unfold realize_virt_arrays in H.
+  destruct (space_pass (m_vs m) (sample_size prec) 10 (0, 0)) as [[[w|]|] acc1].
+  1, 3: inversion H; subst; split; auto; congruence.
+  destruct (space_pass (m_vb m) (c_block c) 11 acc1) as [[[w|]|] [spm maximum]].
+  1, 3: inversion H; subst; split; auto; congruence.
+  destruct (spm <=? 0). { inversion H; subst; split; auto; congruence. }
+  match type of H with context [realize_list ?a (m_vs m) m h ?mm] =>
+    destruct (realize_list a (m_vs m) m h mm) as [vs' [[m1 h1] e1]] eqn:E1 end.
+  eapply realize_list_inv in E1; eauto.
+  2: { intros m0 h0 w0 r0 m0' h0' e0 Hi0 H0. eapply alloc_sarray_inv; eauto. }
+  destruct E1 as (Hi1 & He1).
+  destruct e1 as [e1|].
+  - inversion H; subst. split; auto.
+  - match type of H with context [realize_list ?a (m_vb m) ?m1' h1 ?mm] =>
+      destruct (realize_list a (m_vb m) m1' h1 mm) as [vb' [[m2 h2] e2]] eqn:E2 end.
+    eapply realize_list_inv in E2; eauto.
+    2: { intros m0 h0 w0 r0 m0' h0' e0 Hi0 H0. eapply alloc_barray_inv; eauto. }
+    destruct E2 as (Hi2 & He2). inversion H; subst. split; auto.
+Qed.
+
+(* freeing the pools F (all owned by the manager) leaves exactly the blocks of K *)
+Lemma free_list_inv : forall c m h F K h' t',
+  inv c m h -> Permutation (blocks c m) (map (recblk c) F ++ blocks c K) ->
+  free_list c F h (m_total m) = (h', t') -> m_total K = t' -> inv c K h'.
+Proof.
+  intros c m h F K h' t' (HP & (Hn & Hfr & Hb & Htr) & HT) HB HF HK.
+  assert (HP2 : Permutation (live h) (map (recblk c) F ++ blocks c K)) by (eapply perm_trans; eauto).
+  assert (HN2 : NoDup (ids (map (recblk c) F ++ blocks c K))).
+  { eapply Permutation_NoDup; [apply Permutation_map; exact HP2 | exact Hn]. }
+  unfold ids in HN2. rewrite map_app in HN2. apply nodup_app_iff in HN2. destruct HN2 as (HNF & _ & _).
+  fold (ids (map (recblk c) F)) in HNF. rewrite ids_recblk in HNF.
+  eapply free_list_spec in HF; eauto.
+  2: { intros i Hi. rewrite <- ids_recblk with (c := c) in Hi.
+       eapply Permutation_in; [apply Permutation_sym; apply Permutation_map; exact HP2|].
+       unfold ids. rewrite map_app. apply in_or_app. left. exact Hi. }
+  destruct HF as (Hl & Hnx & Hbf & _ & Ht & Htr').
+  split; [|split].
+  - rewrite Hl. rewrite <- ids_recblk with (c := c). apply perm_remove; auto.
+  - split; [|split; [|split]].
+    + rewrite Hl. apply nodup_ids_filter; auto.
+    + intros x Hx. rewrite Hl in Hx. apply filter_In in Hx. rewrite Hnx. apply Hfr. tauto.
+    + lia.
+    + auto.
+  - rewrite HK, Ht, HT. apply sumsz_perm in HB. rewrite sumsz_app in HB. lia.
+Qed.
+
+Lemma free_pool_inv : forall c m h pid m' h' e,
+  inv c m h -> free_pool c m h pid = (m', h', e) -> inv c m' h' /\ e <> Some OutOfFuel.
+Proof.
+  intros c m h pid m' h' e Hi H. unfold free_pool in H.
+  destruct (bad_pool pid) eqn:Ebp. { inversion H; subst. split; auto; congruence. }
+  apply bad_pool_false in Ebp.
+  set (m1 := if pid =? 1 then set_vb (set_vs m []) [] else m) in *.
+  assert (Hi1 : inv c m1 h) by (unfold m1; destruct (pid =? 1); exact Hi).
+  destruct (free_list c (get_large m1 pid) h (m_total m1)) as [h1 t1] eqn:E1.
+  destruct (free_list c (get_small (set_large m1 pid []) pid) h1 t1) as [h2 t2] eqn:E2.
+  inversion H; subst m' h' e. split; [|congruence].
+  assert (Hi2 : inv c (set_total (set_large m1 pid []) t1) h1).
+  { eapply free_list_inv; [exact Hi1| |exact E1|reflexivity].
+    unfold blocks, pools_of, set_total, set_large, get_large.
+    destruct Ebp; subst pid; simpl; rewrite ?map_app; perm_solve. }
+  eapply free_list_inv; [exact Hi2| |exact E2|reflexivity].
+  unfold blocks, pools_of, set_total, set_large, set_small, get_small.
+  destruct Ebp; subst pid; simpl; rewrite ?map_app; perm_solve.
+Qed.
+
+(* what free_pool leaves on the lists *)
+Lemma free_pool_lists : forall c m h pid m' h' e,
+  bad_pool pid = false -> free_pool c m h pid = (m', h', e) ->
+  get_small m' pid = [] /\ get_large m' pid = [] /\ m_blk m' = m_blk m /\
+  get_small m' (1 - pid) = get_small m (1 - pid) /\ get_large m' (1 - pid) = get_large m (1 - pid) /\
+  (pid = 1 -> m_vs m' = [] /\ m_vb m' = []).
+Proof.
+  intros c m h pid m' h' e Ebp H. unfold free_pool in H. rewrite Ebp in H.
+  apply bad_pool_false in Ebp.
+  destruct (free_list c _ h _) as [h1 t1]. destruct (free_list c _ h1 t1) as [h2 t2].
+  inversion H; subst m' h' e.
+  destruct Ebp; subst pid; simpl; repeat split; auto; lia.
+Qed.
+
+Lemma self_destruct_spec : forall c m h,
+  inv c m h -> live (self_destruct c m h) = [] /\ heap_ok c (self_destruct c m h).
+Proof.
+  intros c m h Hi. unfold self_destruct.
+  destruct (free_pool c m h 1) as [[m1 h1] e1] eqn:E1.
+  destruct (free_pool c m1 h1 0) as [[m2 h2] e2] eqn:E2.
+  pose proof (free_pool_inv _ _ _ _ _ _ _ Hi E1) as (Hi1 & _).
+  pose proof (free_pool_inv _ _ _ _ _ _ _ Hi1 E2) as (Hi2 & _).
+  apply free_pool_lists in E1; [|reflexivity]. apply free_pool_lists in E2; [|reflexivity].
+  destruct E1 as (A1 & A2 & A3 & A4 & A5 & _). destruct E2 as (B1 & B2 & B3 & B4 & B5 & _).
+  unfold get_small, get_large in *. simpl in *.
+  destruct Hi2 as (HP & (Hn & Hfr & Hb & Htr) & HT).
+  assert (HB : blocks c m2 = [(m_blk m2, c_mgr c)]).
+  { unfold blocks, pools_of. rewrite B1, B2, B4, B5, A1, A2. reflexivity. }
+  rewrite HB in HP. apply Permutation_sym in HP. apply Permutation_length_1_inv in HP.
+  unfold free. simpl. rewrite HP. unfold remove_id, id_live. simpl. rewrite Z.eqb_refl. simpl.
+  split; auto. unfold heap_ok. simpl.
+  repeat split; auto. constructor. intros x []. constructor; simpl; auto.
+Qed.
+
+Lemma jinit_inv : forall c h om h' e,
+  cfg_wf c -> live h = [] -> heap_ok c h -> jinit_memory_mgr wid c h = (om, h', e) ->
+  match om with
+  | Some m => inv c m h'
+  | None => live h' = [] /\ heap_ok c h'
+  end /\ e <> Some OutOfFuel.
+Proof.
+  intros c h om h' e Hc Hl Hok H. unfold jinit_memory_mgr in H.
+  assert (Hm : wid (c_mgr c) <= c_max c) by (unfold cfg_wf, wid in *; lia).
+  destruct (malloc h (wid (c_mgr c))) as [h1 [id|]] eqn:EM; eapply malloc_ok in EM; eauto; destruct EM as (Hok1 & Hl1);
+    inversion H; subst; split; try congruence.
+  - split; [|split]; auto.
+    + rewrite Hl1, Hl. unfold blocks, pools_of, wid. simpl. apply Permutation_refl.
+    + unfold blocks, pools_of. simpl. lia.
+  - split; auto. congruence.
+Qed.
+
+(* ------------------------------------------------- the whole client level *)
+Theorem step_inv : forall c o s,
+  cfg_wf c -> st_inv c s ->
+  st_inv c (fst (step wid c o s)) /\ snd (step wid c o s) <> Some OutOfFuel.
+Proof.
+  intros c o s Hc Hs. unfold st_inv in Hs.
+  destruct s as [[m|] h prec]; simpl in Hs.
+  - destruct o; simpl; unfold mk.
+    all: try (split; [exact Hs | congruence]).
+    + destruct (alloc_small wid c m h pid sz) as [[m1 h1] e1] eqn:E. apply alloc_small_inv in E; auto.
+    + destruct (alloc_large wid c m h pid sz) as [[m1 h1] e1] eqn:E. apply alloc_large_inv in E; auto.
+    + destruct (alloc_sarray wid c m h prec pid width rows) as [[m1 h1] e1] eqn:E. apply alloc_sarray_inv in E; auto.
+    + destruct (alloc_barray wid c m h pid width rows) as [[m1 h1] e1] eqn:E. apply alloc_barray_inv in E; auto.
+    + destruct (request_virt_sarray wid c m h pid width rows maxacc) as [[m1 h1] e1] eqn:E. apply request_virt_sarray_inv in E; auto.
+    + destruct (request_virt_barray wid c m h pid width rows maxacc) as [[m1 h1] e1] eqn:E. apply request_virt_barray_inv in E; auto.
+    + destruct (realize_virt_arrays wid c m h prec) as [[m1 h1] e1] eqn:E. apply realize_virt_arrays_inv in E; auto.
+    + destruct (free_pool c m h pid) as [[m1 h1] e1] eqn:E. apply free_pool_inv in E; auto.
+    + split; [|congruence]. unfold st_inv; simpl. apply self_destruct_spec; auto.
+  - destruct Hs as (Hl & Hok).
+    destruct o; simpl.
+    all: try (split; [unfold st_inv; simpl; auto | congruence]).
+    destruct (jinit_memory_mgr wid c h) as [[om h1] e1] eqn:E. apply jinit_inv in E; auto.
+Qed.
+
+Lemma init_st_inv : forall c oracle, st_inv c (init_st oracle).
+Proof.
+  intros. unfold st_inv, init_st, empty_heap, heap_ok; simpl. repeat split; auto. constructor. intros x [].
+Qed.
+
+Theorem run_inv : forall c ops s, cfg_wf c -> st_inv c s -> st_inv c (run wid c ops s).
+Proof.
+  induction ops as [|o r IH]; intros s Hc Hs; simpl; auto.
+  apply IH; auto. apply step_inv; auto.
+Qed.
